@@ -8,7 +8,7 @@ import (
 func init() { register("C03", "exploration", checkC03) }
 
 var baseTopics = []string{"a", "a/b", "a/c", "b", "a/b/c"}
-var baseFilters = []string{"a", "a/b", "a/+", "a/#", "#", "+/b", "b", "+", "a/b/c"}
+var baseFilters = []string{"a", "a/b", "a/+", "a/#", "#", "+/b", "b", "+", "a/b/c", "+/#", "a/+/#"}
 
 func deliveryProfile() *hist.Profile {
 	return &hist.Profile{
